@@ -436,13 +436,36 @@ class _LinalgProxy:
         if h is not None:
             return h(a)
         if contains_sym(a):
-            raise HarnessError("cholesky of symbolic matrix without a stub")
+            return _chol_small(np.asarray(_base(a), dtype=object))
         return np.linalg.cholesky(a)
 
     def det(self, a):
         if contains_sym(a):
             return _det(np.asarray(_base(a), dtype=object))
         return np.linalg.det(a)
+
+
+def _chol_small(a):
+    """Cholesky–Banachiewicz on a small symbolic SPD matrix (exact reals: square roots and quotients are engine terms)"""
+    if a.ndim != 2 or a.shape[0] != a.shape[1] or a.shape[0] > 4:
+        raise HarnessError(f"symbolic cholesky of shape {a.shape}")
+    n = a.shape[0]
+    L = np.empty((n, n), dtype=object)
+    for i in range(n):
+        for j in range(n):
+            L[i, j] = Sym.of(0)
+    for i in range(n):
+        for j in range(i + 1):
+            acc = Sym.of(a[i, j])
+            for k in range(j):
+                acc = acc - L[i, k] * L[j, k]
+            if i == j:
+                L[i, j] = _sqrt1(acc)
+                if isinstance(L[i, j], Special):
+                    raise HarnessError("symbolic cholesky of a matrix that is not positive definite on this path")
+            else:
+                L[i, j] = acc / L[j, j]
+    return L.view(SymArray)
 
 
 def _det(a):
